@@ -206,14 +206,17 @@ def tlc_view(events, path):
 
 
 def split_runs(events):
-    runs, cur = [], []
+    """Runs are `run` .. `reset`; events recorded after a reset (a reader that
+    was released by the shutdown) belong to no run and are dropped."""
+    runs, cur = [], None
     for e in events:
-        cur.append(e)
-        if e.get("e") == "reset":
-            runs.append(cur)
-            cur = []
-    if cur:
-        runs.append(cur)
+        if e.get("e") == "run":
+            cur = [e]
+        elif cur is not None:
+            cur.append(e)
+            if e.get("e") == "reset":
+                runs.append(cur)
+                cur = None
     return runs
 
 
@@ -232,21 +235,271 @@ def judge(wd, name, events):
     return res["viol"], res["stats"], r
 
 
-def classify(wd, name, run_events, is_set):
-    """Validate one failing run against the mechanism spec as coded.
-    Returns (accepted, tags) - tags: set of finding tags that explain the wrong reads."""
+def classify(wd, name, runs, is_set, timeout=900):
+    """Validate failing runs (list of event lists) of one map family against
+    the mechanism spec as coded, all in one TLC run.
+    Returns (accepted, {run id: set(tags)}, tlc result)."""
     tp = os.path.join(wd, name + ".m.ndjson")
     op = os.path.join(wd, name + ".m.json")
-    tlc_view(run_events, tp)
+    tlc_view([e for r in runs for e in r], tp)
     if os.path.exists(op):
         os.remove(op)
     mod = "KeyOfSetCacheTrace" if is_set else "WideColumnCacheTrace"
     r = vp.tlc(mod, cfg=mod + ".cfg", env={"TRACE": tp, "OUT": op}, workers=1, deque=True,
-               timeout=900, xmx="6g", check_ok=False)
-    if r["rc"] not in (0, 12, 13) and not os.path.exists(op):
-        if "Error:" in r["out"] and "deadlock" not in r["out"].lower():
-            raise vp.ToolError(f"mechanism trace validation crashed on {tp}:\n{r['out'][-3000:]}")
+               timeout=timeout, xmx="6g", check_ok=False)
     if not os.path.exists(op):
-        return False, set(), r
+        if "NotDone" not in r["invariant_violated"] and not r["ok"]:
+            raise vp.ToolError(f"mechanism trace validation crashed on {tp}:\n{r['out'][-3000:]}")
+        return False, {}, r
     res = json.load(open(op))
-    return True, set(res.get("tags", [])), r
+    return True, {x["id"]: set(x["tags"]) for x in res["runs"]}, r
+
+
+def classify_all(wd, name, runs, is_set, stats):
+    """Per-run classification: one TLC run for all; bisect when it is rejected.
+    Returns {run id: None (rejected) | set(tags)}."""
+    out = {}
+    if not runs:
+        return out
+    acc, tags, r = classify(wd, name, runs, is_set)
+    stats["m_tlc_runs"] = stats.get("m_tlc_runs", 0) + 1
+    stats["m_states"] = stats.get("m_states", 0) + r["distinct"]
+    if acc:
+        for ru in runs:
+            out[ru[0]["id"]] = tags.get(ru[0]["id"], set())
+        return out
+    if len(runs) == 1:
+        out[runs[0][0]["id"]] = None
+        return out
+    h = len(runs) // 2
+    out.update(classify_all(wd, name + "a", runs[:h], is_set, stats))
+    out.update(classify_all(wd, name + "b", runs[h:], is_set, stats))
+    return out
+
+
+def renumber(runs):
+    """Give every run a unique id (several binaries' outputs are merged)."""
+    for i, r in enumerate(runs):
+        for e in r:
+            if e.get("e") in ("run", "reset"):
+                e["id"] = i + 1
+    return runs
+
+
+def verdict_of(wd, name, events, verdict, ev, behaviours=None, seed=0):
+    """Judge a trace file, classify failing runs, feed the verdict.
+    Returns number of runs judged."""
+    runs = renumber(split_runs(events))
+    flat = [e for r in runs for e in r]
+    viol, stats, jr = judge(wd, name, flat)
+    for k, v in stats.items():
+        ev["judge"][k] = ev["judge"].get(k, 0) + v
+    ev["judge_states"] = ev.get("judge_states", 0) + jr["distinct"]
+    byrun = collections.defaultdict(list)
+    for v in viol:
+        byrun[v["run"]].append(v)
+    harness = [v for v in viol if v["kind"].startswith("harness_")]
+    if harness:
+        raise vp.ToolError(f"harness error in {name}: {harness[:3]}")
+    failing = [r for r in runs if r[0]["id"] in byrun]
+    known = known_by_tag(verdict)
+    mstats = ev.setdefault("classification", {})
+    for fam, is_set in (("wide", False), ("set", True)):
+        fr = [r for r in failing if (r[0].get("map") == "set") == is_set]
+        res = classify_all(wd, f"{name}-{fam}", fr, is_set, mstats)
+        for r in fr:
+            rid = r[0]["id"]
+            tags = res.get(rid)
+            vs = byrun[rid]
+            mode = r[0].get("mode")
+            sample = {"run": {k: r[0].get(k) for k in ("map", "cap", "mode", "name")},
+                      "wrong_reads": [{k: (v[k] if not isinstance(v[k], list) or len(v[k]) < 12 else f"<{len(v[k])} elements>")
+                                       for k in ("kind", "k", "got", "a", "b")} for v in vs[:3]]}
+            if tags is not None and tags and all(t in known for t in tags):
+                for t in sorted(tags):
+                    verdict.known_finding(known[t]["id"], known[t]["what"])
+                    ev["known_hits"][known[t]["id"]] = ev["known_hits"].get(known[t]["id"], 0) + 1
+                    ev["known_by_mode"][f"{known[t]['id']}/{mode}"] = ev["known_by_mode"].get(f"{known[t]['id']}/{mode}", 0) + 1
+                if len(ev["known_samples"]) < 6:
+                    sample["tags"] = sorted(tags)
+                    ev["known_samples"].append(sample)
+            else:
+                why = ("wrong read that the mechanism model as coded cannot reproduce with a known-finding signature"
+                       if tags is None else f"wrong read explained only by tags {sorted(tags)} which are not known findings")
+                obj = {"property": PID, "what": why, "seed": seed, "run": r[0], "violations": vs[:10],
+                       "trace": [e for e in r if e.get("e") != "note"]}
+                if behaviours is not None and r[0].get("name"):
+                    b = [x for x in behaviours if x.get("name") == r[0].get("name")]
+                    if b:
+                        obj["behaviour"] = b[0]
+                verdict.violation(f"{why}: run {r[0]} first {vs[0]}", obj)
+    return len(runs), len(failing)
+
+
+def drift_of(events, ev):
+    """Compare the replayed results with the model's as-is prediction (never a verdict)."""
+    n = d = 0
+    first = None
+    for e in events:
+        if e.get("e") != "note":
+            continue
+        st = e["step"]
+        if st.get("a") != "res" or not isinstance(e.get("got"), dict) or "r" not in e["got"]:
+            continue
+        got = e["got"]["r"]
+        if isinstance(got, list):
+            same = sorted(got) == sorted(st["asis"])
+        else:
+            same = (got == -1 and st["asis"] == 0) or got == st["asis"]
+        same = same and e["got"].get("db") == st.get("ndb")
+        n += 1
+        if not same:
+            d += 1
+            first = first or {"step": st, "got": e["got"]}
+    ev["replay_reads_compared"] = ev.get("replay_reads_compared", 0) + n
+    ev["model_drift"] = ev.get("model_drift", 0) + d
+    if first and "model_drift_first" not in ev:
+        ev["model_drift_first"] = first
+
+
+def harness(bd, out, **kw):
+    cmd = [os.path.join(bd, "cache_replay"), "--out", out, "--quiet"]
+    for k, v in kw.items():
+        if v is True:
+            cmd += [f"--{k}"]
+        else:
+            cmd += [f"--{k}", str(v)]
+    p = vp.run(cmd, timeout=3000)
+    m = re.search(r"panics=(\d+)", p.stdout or "")
+    return int(m.group(1)) if m else 0
+
+
+def new_ev():
+    return {"judge": {}, "known_hits": {}, "known_by_mode": {}, "known_samples": []}
+
+
+def run(tier, seed):
+    t0 = time.time()
+    wd = vp.clean_workdir(PID)
+    bd = vp.build()
+    verdict = vp.Verdict(PID)
+    ev = new_ev()
+    states, trans = design_check(tier, ev)
+    ev["states"] = states
+    ev["transitions"] = trans
+    # S->I
+    path, behs = gen_behaviours(wd, seed, tier, ev)
+    rp = os.path.join(wd, "replay.ndjson")
+    panics = harness(bd, rp, mode="replay", **{"in": path})
+    events = load_trace(rp)
+    drift_of(events, ev)
+    nruns, nfail = verdict_of(wd, "replay", events, verdict, ev, behaviours=behs, seed=seed)
+    ev["replayed_behaviours"] = nruns
+    ev["replayed_failing"] = nfail
+    aborted = [e for e in events if e.get("e") == "reset" and e.get("aborted")]
+    ev["replay_aborted"] = len(aborted)
+    # I->S
+    q = tier == "quick"
+    plans = [("seq", dict(mode="seq", seed=seed, runs=60 if q else 600, steps=60)),
+             ("seqbig", dict(mode="seq", seed=seed + 1000, runs=6 if q else 40, steps=50, map="set", big=True)),
+             ("par", dict(mode="par", seed=seed + 2000, runs=40 if q else 500, ops=10, chaos=300))]
+    total_runs = nruns
+    for name, kw in plans:
+        tp = os.path.join(wd, name + ".ndjson")
+        panics += harness(bd, tp, **kw)
+        events = load_trace(tp)
+        n, f = verdict_of(wd, name, events, verdict, ev, seed=seed)
+        ev[name + "_runs"] = n
+        ev[name + "_failing"] = f
+        total_runs += n
+        ab = [e for e in events if e.get("e") == "reset" and e.get("aborted")]
+        if ab:
+            raise vp.ToolError(f"{name}: operation hangs / run aborted: {ab[:2]}")
+    ev["panics_in_code_under_test"] = panics
+    rc = verdict.finish()
+    samples = [{"behaviour_replayed": behs[0]}, {"behaviour_replayed": behs[-1]}] + ev.pop("known_samples")
+    cov = {"states": ev.pop("states") + ev.get("judge_states", 0) + ev["classification"].get("m_states", 0),
+           "transitions": ev.pop("transitions"),
+           "traces_validated_against_impl": total_runs,
+           "samples": samples}
+    cov.update(ev)
+    vp.write_evidence(PID, tier, seed, "model_checking", cov, time.time() - t0, len(verdict.violations),
+                      assumptions=[
+                          "callers write one key (one element of one set) through batches in epoch order and never concurrently (the store commits in epoch order)",
+                          "eviction is a free action in the model; in the replays it is provoked by touching 400 other keys and checked through the store-read count of the next get",
+                          "the window between a physical commit and its after-commit notification is not controllable without a hook: replays treat them as one step, the random parallel driver reaches it uncontrolled",
+                          "trace validation against the mechanism specs uses MemKv's scan order (byte order of the postcard encoding)",
+                      ])
+    return rc
+
+
+def replay(path):
+    obj = json.load(open(path))
+    wd = vp.workdir(PID, "replay")
+    bd = vp.build()
+    verdict = vp.Verdict(PID)
+    ev = new_ev()
+    if "behaviour" in obj:
+        bp = os.path.join(wd, "b.ndjson")
+        with open(bp, "w") as f:
+            f.write(json.dumps(obj["behaviour"]) + "\n")
+        tp = os.path.join(wd, "b.trace.ndjson")
+        harness(bd, tp, mode="replay", **{"in": bp})
+        events = load_trace(tp)
+    else:
+        events = obj["trace"]
+    verdict_of(wd, "replayed", events, verdict, ev, seed=obj.get("seed", 0))
+    return verdict.finish()
+
+
+def selftest(seed):
+    """(a) corrupt one recorded result of an accepted trace: the judge must
+    reject it and the mechanism model must not explain it; (b) a known-finding
+    witness must be judged wrong AND explained; (c) the same witness with the
+    wrong value altered must NOT be explained (=> VIOLATION)."""
+    wd = vp.clean_workdir(PID + "-selftest")
+    bd = vp.build()
+    ok = True
+    # (a) sequential random run, flip one get result
+    tp = os.path.join(wd, "seq.ndjson")
+    harness(bd, tp, mode="seq", seed=seed, runs=6, steps=40, map="single")
+    events = load_trace(tp)
+    runs = renumber(split_runs(events))
+    v0, _, _ = judge(wd, "orig", [e for r in runs for e in r])
+    clean = [r for r in runs if not any(v["run"] == r[0]["id"] for v in v0)]
+    target = None
+    for r in clean:
+        ges = [e for e in r if e.get("e") == "ge"]
+        if ges:
+            target = r
+            g = ges[len(ges) // 2]
+            g["r"] = (g["r"] + 5) if g["r"] >= 0 else 3
+            break
+    if target is None:
+        raise vp.ToolError("selftest: no clean run with a get")
+    v1, _, _ = judge(wd, "corrupt", target)
+    acc, _, _ = classify(wd, "corrupt", [target], False)
+    print(f"selftest (a): corrupted one get result -> judge reports {len(v1)} wrong read(s); mechanism model accepts: {acc}")
+    ok &= len(v1) >= 1 and not acc
+    # (b)+(c) the finding #4 witness
+    w = {"name": "kf4", "map": "single", "cap": 1, "steps": [
+        {"a": "new", "c": 1, "b": 0}, {"a": "ins", "c": 1, "b": 0, "k": 0, "v": 1}, {"a": "submit", "c": 1, "b": 0},
+        {"a": "commit"}, {"a": "evict"}, {"a": "get", "c": 2, "k": 0, "park": True},
+        {"a": "new", "c": 1, "b": 1}, {"a": "ins", "c": 1, "b": 1, "k": 0, "v": 2}, {"a": "submit", "c": 1, "b": 1},
+        {"a": "commit"}, {"a": "evict"}, {"a": "release", "c": 2}, {"a": "get", "c": 1, "k": 0}]}
+    bp = os.path.join(wd, "w.ndjson")
+    open(bp, "w").write(json.dumps(w) + "\n")
+    wp = os.path.join(wd, "w.trace.ndjson")
+    harness(bd, wp, mode="replay", **{"in": bp})
+    wr = renumber(split_runs(load_trace(wp)))
+    v2, _, _ = judge(wd, "w", wr[0])
+    acc2, tags2, _ = classify(wd, "w", wr, False)
+    print(f"selftest (b): finding #4 witness on the real code -> {len(v2)} wrong read(s); explained: {acc2} tags {tags2}")
+    ok &= len(v2) >= 1 and acc2 and tags2.get(1) == {"KF4"}
+    last = [e for e in wr[0] if e.get("e") == "ge"][-1]
+    last["r"] = 7
+    acc3, _, _ = classify(wd, "w2", wr, False)
+    print(f"selftest (c): same witness with the stale value replaced by a value never written -> explained: {acc3}")
+    ok &= not acc3
+    print("selftest", "passed" if ok else "FAILED")
+    return 0 if ok else 2
